@@ -191,6 +191,8 @@ pub fn vec_znx_dft_apply<R, A, BE>(
         if limb < a_size {
             BE::reim_from_znx(res.at_mut(res_col, j), a.at(a_col, limb));
             BE::reim_dft_execute(table, res.at_mut(res_col, j));
+        } else {
+            BE::reim_zero(res.at_mut(res_col, j));
         }
     }
 
